@@ -11,7 +11,7 @@ CHECKS = {
     "C01": dict(
         technique="property-based testing (Hypothesis): generated systems/variables/biases; oracle = Richardson finite differences of the engine-visible energy vs applied atomic forces",
         level="exploration",
-        text="Generated-input search (thousands of configurations per run over the component/option/bias tables) against a finite-difference oracle computed from the energy the engine receives; catches any force/energy inconsistency above ~1e-6..1e-3 relative in the explored class, establishes nothing outside it.",
+        text="Generated-input search (thousands of configurations per run over the component/option/bias tables) against a finite-difference oracle computed from the energy the engine receives; catches any force/energy inconsistency above ~1e-6..1e-3 relative in the explored class, establishes nothing outside it. Second part: metadynamics without grids, OPES and ABMD evaluated with their state frozen after a generated priming trajectory.",
         note="Trusts the engine simulator (checks/../engine/vproxy.cpp), finite differences (errors below ~1e-6 relative are invisible), generated geometries away from singular points (detected kinks are counted, not asserted).",
         design="DESIGN.md section 4 C01"),
     "C02": dict(
@@ -30,12 +30,12 @@ CHECKS = {
         technique="model-based property testing (Hypothesis): reference model of hill deposition/tabulation compared with bias energy and forces at every step",
         level="exploration",
         text="Generated trajectories incl. excursions beyond the grid, hill schedules, well-tempered heights, grids on/off, delayed tabulation, keepHills, expandBoundaries; energy and per-variable force compared at every step (rel 1e-9; 2e-4*sum(W) outside the grid where the code truncates Gaussian tails).",
-        note="Controlled scalar variables (1-2); non-scalar variables and rebinning on restart are not in this check; hill widths >= one grid spacing.",
+        note="Controlled scalar variables (1-2) with grids; a 3-vector / unit-vector variable without grids (energy, and force for the 3-vector); rebinning on restart is not in this check; hill widths >= one grid spacing.",
         design="DESIGN.md section 4 C05"),
     "C06": dict(
         technique="property-based testing (Hypothesis): closed-form potentials, schedule as a function of the step number recovered from energy+force, work/TI recomputed from the trace, cut-and-restart differential",
         level="exploration",
-        text="Potentials of harmonic/walls/linear over every value type and the ABMD ratchet against the manual's closed forms; centre/force-constant schedules (continuous, staged, lambdaSchedule, decoupling, exponent) at every step; accumulated work; staged TI means; independence from run segmentation via restart at a generated step.",
+        text="Potentials of harmonic/walls/linear over every value type and the ABMD ratchet against the manual's closed forms; centre/force-constant schedules (continuous, staged, lambdaSchedule, decoupling, exponent) at every step; accumulated work; staged TI means; independence from run segmentation via restart at a generated step; walls on a periodic variable with the nearer wall across the boundary (energy and force).",
         note="Schedules exercised on a controlled scalar variable; the phase of the TI equilibration window is accepted in either of the two readings the manual allows.",
         design="DESIGN.md section 4 C06"),
     "C03": dict(
@@ -47,8 +47,8 @@ CHECKS = {
     "C07": dict(
         technique="property-based testing (Hypothesis): inverse/linearity/Jacobian relations between the engine's atomic total forces and the reported variable total force, both timing conventions",
         level="exploration",
-        text="Generated variables from the total-force-capable component table with generated system forces: reported total force equals the projection of what the engine supplied (closed forms for controlled variables, linearity and one-step lag otherwise), own bias subtracted exactly once in the late convention.",
-        note="Near-singular dihedrals are discarded by a stated filter; eigenvector/alchLambda not in the table.",
+        text="Generated variables from the total-force-capable component table with generated system forces: reported total force equals the projection of what the engine supplied (closed forms for controlled variables, linearity and one-step lag otherwise), own bias subtracted exactly once in the late convention; histories in which walls switch on and off, every step compared.",
+        note="Near-singular dihedrals are discarded by a stated filter; eigenvector is generated with a fitting group disjoint from the main group; alchLambda is not in the table; time-step factors are left to C08. A total force of exactly zero is taken by the code as 'not available' (nothing subtracted) and is skipped.",
         design="DESIGN.md section 4 C07"),
     "C08": dict(
         technique="differential property testing (Hypothesis): superposition (all objects together vs each alone) and multiple-time-step schedule model",
@@ -60,18 +60,18 @@ CHECKS = {
         technique="coverage-guided fuzzing of configuration bytes (libFuzzer, ASan+UBSan, dictionary from the sources, seeded with the repository's test inputs) with a 'module still usable' oracle; property-based testing (Hypothesis): keyword-level mutations of generated valid configurations must be rejected; metamorphic layout rewrites must give bit-identical traces",
         level="exploration",
         text="Totality by fuzzing; strictness over 9 mutation kinds (misspelling, wrong context, three brace faults, missing value, text/fused/hex number) applied to every keyword position of generated configurations; layout independence over 9 rewrite kinds (case, whitespace, blank lines, comments, trailing comments, CRLF, split/joined blocks, boolean spellings).",
-        note="Strictness is checked at the positions and for the keywords the generators emit (component/group/bias tables of lib/gen.py and lib/zoo.py), not for every keyword in the manual; letter case is free for keywords only.",
+        note="Mutation kinds now include truncated keywords. Strictness is checked at the positions and for the keywords the generators emit (component/group/bias tables of lib/gen.py and lib/zoo.py), not for every keyword in the manual; letter case is free for keywords only.",
         design="DESIGN.md section 4 C09"),
     "C10": dict(
         technique="structure-aware coverage-guided fuzzing (libFuzzer, ASan+UBSan) of parameter values over curated object templates with boundary values; property-based differential testing (Hypothesis) of recovery after a rejected configuration",
         level="exploration",
-        text="Every keyword of 15 object templates crossed with boundary values, then steps/outputs/state save; no signal, sanitizer report, hang or huge allocation, module usable afterwards. Recovery: trace of surviving objects after 1-2 rejected configurations (20 kinds) is bitwise that of a control run; object lists and atom requests unchanged; later valid configuration accepted.",
+        text="Every keyword of 15 object templates crossed with boundary values (biases decoded first, deterministic seed corpus of long inputs so that every keyword is reached), then steps/outputs/state save; no signal, sanitizer report, hang or huge allocation, module usable afterwards. Recovery: trace of surviving objects after 1-2 rejected configurations (20 kinds) is bitwise that of a control run; object lists and atom requests unchanged; later valid configuration accepted.",
         note="Keywords not in the templates (path/protein components, volumetric maps, scripted/custom functions) are reached only by the byte-level fuzzer of C09. The log indentation level left raised by some error paths is not compared.",
         design="DESIGN.md section 4 C10"),
     "C11": dict(
         technique="fault enumeration driven by property-based generation (Hypothesis): process death at every proxy-level file operation (and, thorough, SIGKILL at every rename/openat/write/close/unlink system call via strace), crash sequences; truncation of generated states at generated/all offsets; coverage-guided fuzzing of damaged states (libFuzzer, ASan+UBSan); rapidcheck round trip of the binary stream",
         level="fault_enumeration",
-        text="For each generated configuration/history every I/O point after the first completed state is a death point; after each death one of state/.old must load and equal a reference state. Truncated states: no crash, mid-block cuts of text states are errors, no half-loaded object. Damaged states: no memory error, module usable. Binary stream: every element type and length.",
+        text="For each generated configuration/history every I/O point after the first completed state is a death point; after each death one of state/.old must load and equal a reference state, and the state file a multiple-walker metadynamics publishes for its peers must load whenever it exists. Truncated states: no crash, mid-block cuts of text states are errors, no half-loaded object. Damaged states: no memory error, module usable. Binary stream: every element type and length.",
         note="Three listed known findings are reported as KNOWN-FINDING (double death overwrites the backup with a partial file; binary hills list has no terminator). OPES is left out of the crash part (its state content is the subject of a C03 finding). Deaths are modelled by _exit at I/O points and by SIGKILL at syscall entry, not inside a single write() call.",
         design="DESIGN.md section 4 C11"),
     "C12": dict(
@@ -81,9 +81,9 @@ CHECKS = {
         note="Thread interleavings are sampled by the OS scheduler in mode 2 (not enumerated); TSan sees only races that the executed schedule exposes.",
         design="DESIGN.md section 4 C12"),
     "C13": dict(
-        technique="stateful property testing (Hypothesis operation lists): create/delete/reconfigure sequences vs a fresh module built with the surviving objects; dependency-graph invariants through a guarded friend hook; ASan replay",
+        technique="stateful property testing (Hypothesis operation lists): create/delete/reconfigure sequences vs a fresh module built with the surviving objects; dependency-graph invariants (requirements, exclusions, parent/child links, reference count >= live requirements) through a guarded friend hook; ASan replay",
         level="exploration",
-        text="Generated sequences of config/delete/reset/step operations via script and configuration; after every step the trace equals that of a fresh module holding the same objects, reference counts and atom requests equal those recomputed from the live graph, and no freed memory is touched (ASan).",
+        text="Generated sequences of config/delete/reset/step operations via script and configuration; after every step values, energies, applied forces and atomic forces equal those of a run in which the deleted objects never existed, atom requests equal those recomputed from the live definitions, the dependency graph satisfies its invariants, and no freed memory is touched (ASan).",
         note="Objects that carry history (extended Lagrangian, history-dependent biases) are excluded from the fresh-module comparison by a taint rule, still covered by the invariants.",
         design="DESIGN.md section 4 C13"),
     "C14": dict(
@@ -95,7 +95,7 @@ CHECKS = {
     "C20": dict(
         technique="coverage-guided fuzzing (libFuzzer, ASan+UBSan) of script command sequences with the 'result xor error' and 'module still usable' oracles inside the target; property-based testing (Hypothesis) of query/trace agreement and of script-vs-engine action equivalence",
         level="exploration",
-        text="Command sequences over the registered command table with malformed arguments interleaved with steps; every query type compared with the engine-side trace of the same step at the printed precision, atomic forces = sum of script forces x script gradients; cv config/configfile/load/loadfromstring/save/addforce/bias state commands compared with the engine or configuration path (bitwise where the arithmetic is the same).",
+        text="Command sequences over the registered command table with malformed arguments interleaved with steps; every query type compared with the engine-side trace of the same step at the printed precision, atomic forces = sum of script forces x script gradients; cv config/configfile/load/loadfromstring/save/addforce/bias state commands compared with the engine or configuration path (bitwise where the arithmetic is the same); 'cv reset' + same configuration + load equals a fresh module.",
         note="Energies are printed with 6 significant digits by the interface; agreement is checked at that precision (stated assumption).",
         design="DESIGN.md section 4 C20"),
     "C15": dict(
@@ -113,13 +113,13 @@ CHECKS = {
     "C17": dict(
         technique="model-based property testing (Hypothesis): independent reference integrator for the extended-Lagrangian degree of freedom driven by a recorded Gaussian tape",
         level="exploration",
-        text="Generated masses/force constants/friction/temperatures/time steps/timeStepFactor, walls and biases on the extended coordinate, run boundaries and restarts: position, velocity, spring force on atoms and energy at every step equal the reference (rel 1e-9).",
+        text="Generated masses/force constants/friction/temperatures/time steps/timeStepFactor, walls and biases on the extended coordinate, run boundaries and restarts: position, velocity, spring force on atoms and energy at every step equal the reference (rel 1e-9), each step predicted from the code's own previous state (one-step-ahead, so that stiff dynamics do not amplify rounding); timeStepFactor 1-3 on the variable.",
         note="The random numbers are a tape owned by the harness; the statistical quality of the thermostat is not decided.",
         design="DESIGN.md section 4 C17"),
     "C19": dict(
         technique="property-based testing (Hypothesis): trajectory, running-average and correlation-function files parsed and recomputed from the step trace",
         level="exploration",
-        text="Generated output frequencies, run boundaries with repeated steps, objects added mid-run, every output flag: one line per eligible step, no duplicates, labels match columns, numbers equal the trace at 14 digits; running average/ACF equal a Python recomputation.",
+        text="Generated output frequencies, run boundaries with repeated steps, objects added mid-run, every output flag: one line per eligible step, no duplicates, labels match columns, numbers equal the trace at 14 digits; running average/ACF (scalar and 3-vector, coordinate and coordinate_p2) equal a Python recomputation.",
         note="Running average of periodic variables is not compared near the seam (not defined by the property).",
         design="DESIGN.md section 4 C19"),
     "C18": dict(
